@@ -68,6 +68,9 @@ func c15Job(raw json.RawMessage) (any, error) {
 		if hasAccept {
 			q.Header = map[string]string{"Accept": accept, "X-Other": "1"}
 		}
+		if strings.HasPrefix(path, "/") && len(path) < 100 {
+			q.RawPath = path[:len(path)-1] + fmt.Sprintf("%%%02X", path[len(path)-1]) // the target arrived with its last byte percent-encoded
+		}
 		probe := q.String()
 		if it.Only != "" && it.Only != probe {
 			return
@@ -135,6 +138,9 @@ func c15Job(raw json.RawMessage) (any, error) {
 			}
 			rep("C15.match", class, probe, got, want)
 		}
+		if !ok && req.URL.RawPath != q.RawPath {
+			rep("C15.untouched", "rawpath-mutated-on-reject", probe, fmt.Sprintf("URL.RawPath=%q", req.URL.RawPath), fmt.Sprintf("URL.RawPath=%q", q.RawPath))
+		}
 		if h := headerString2(req.Header); h != hdrBefore {
 			rep("C15.untouched", "headers-mutated", probe, h, hdrBefore)
 		}
@@ -155,7 +161,7 @@ func c15Job(raw json.RawMessage) (any, error) {
 				}
 			}
 		}
-		for _, g := range []string{";;", "a/b;=", "\xff", "a/b;version=1;version=1", "a/b ; version = 1", strings.Repeat("a", 70000)} {
+		for _, g := range []string{"application/json;version=1, text/plain", "application/json;version=1,text/plain;version=2", "text/plain, application/json;version=1", `application/json;version="1,0"`, "application/json;version=1,0", ";;", "a/b;=", "\xff", "a/b;version=1;version=1", "a/b ; version = 1", strings.Repeat("a", 70000)} {
 			try("/x", g, true)
 		}
 	}
@@ -206,7 +212,7 @@ func init() {
 			}
 		}
 		for _, key := range []string{"", "version", "v"} {
-			for _, l := range [][]string{{"1"}, {"2"}, {"1", "2"}, {"2", "1"}, {"1.0"}, {""}, {"", "1"}, {"1", ""}} {
+			for _, l := range [][]string{{"1"}, {"2"}, {"1", "2"}, {"2", "1"}, {"1.0"}, {""}, {"", "1"}, {"1", ""}, {"1,0", "1"}} {
 				for _, p := range []string{"", "hv"} {
 					items = append(items, c15Item{Kind: "header", Param: p, Key: key, Versions: l})
 				}
